@@ -46,6 +46,21 @@ def is_map(t):
     return isinstance(t, tuple)
 
 
+def wf_tree(t):
+    """is t a well-formed python tree (a second mutation applied to an already mutated tree can
+    produce junk such as a sliced tuple; such results are discarded)"""
+    if isinstance(t, bool):
+        return False
+    if isinstance(t, int):
+        return -2**63 <= t <= I64MAX
+    if isinstance(t, bytes):
+        return True
+    if isinstance(t, list):
+        return all(wf_tree(x) for x in t)
+    return (isinstance(t, tuple) and len(t) == 2 and t[0] == "M" and isinstance(t[1], list) and
+            all(isinstance(e, tuple) and len(e) == 2 and isinstance(e[0], bytes) and wf_tree(e[1]) for e in t[1]))
+
+
 GOOD_COMPS = [b"a", b"b", b"c", b"dir", b"sub", b"file.txt", b"x y", b"...", b".a", b"a.", b"\xc3\xa9", b"\xff\xfe", b"-", b"~", b"a\\b", b"A"]
 BAD_COMPS = [b"", b".", b"..", b"a/b", b"/", b"/etc", b"../x", b"a\x00", b"\x00", b"..\x00", b"a/", b"/a", b"a//b", b"./", b".."[:1] + b"/"]
 WRONG_TYPES = [0, 7, -1, b"", b"str", [], [b"a"], ("M", []), ("M", [(b"k", 1)])]
@@ -149,6 +164,8 @@ def mutate(rng, t, stats):
         return put_info(mset(info, "piece length", rng.choice(PIECE_LENGTHS_EDGE))), False
     if kind == "pieces_len":
         p = mget(info, "pieces")
+        if not isinstance(p, bytes):
+            raise TypeError("pieces already mutated")
         d = rng.choice([-20, -1, 1, 19, 20, 21, 40, -len(p)])
         q = p + b"\x55" * d if d > 0 else p[:max(0, len(p) + d)]
         return put_info(mset(info, "pieces", q)), False
@@ -193,6 +210,8 @@ def mutate(rng, t, stats):
     fs = list(files)
     i = rng.randrange(len(fs))
     if kind == "path_bad":
+        if not isinstance(mget(fs[i], "path"), list):
+            raise TypeError("path already mutated")
         p = list(mget(fs[i], "path"))
         bad = rng.choice(BAD_COMPS + [5, [], ("M", [])])
         r = rng.random()
@@ -207,6 +226,8 @@ def mutate(rng, t, stats):
         j = rng.randrange(len(fs))
         fs.insert(rng.randrange(len(fs) + 1), mset(fs[j], "length", rng.choice([0, 1, 5])))
     elif kind == "path_prefix":
+        if not isinstance(mget(fs[i], "path"), list):
+            raise TypeError("path already mutated")
         p = list(mget(fs[i], "path"))
         r = rng.random()
         if r < 0.5:
@@ -387,7 +408,7 @@ def bencoded_case(rng, t, stats):
     ni = G7.normalize(info)
     ents = list(ni[1])
     r = rng.random()
-    if r < 0.45:
+    if r < 0.45 or not ents:
         kind = "ordered"
     elif r < 0.8 and len(ents) >= 2:
         kind = "unordered_info"
@@ -534,9 +555,12 @@ def gen(seed, tier):
             if not (is_map(t) and is_map(mget(t, "info") if mget(t, "info") is not None else 0)):
                 break
             try:
-                t, u2 = mutate(rng, t, stats)
+                t2, u2 = mutate(rng, t, stats)
             except (IndexError, TypeError, AttributeError, ValueError):
                 break       # a second mutation that does not apply to the already mutated tree
+            if not wf_tree(t2):
+                break
+            t = t2
             u = u or u2
         cases.append("T %s %s" % ("u" if u else "o", G7.tree_line(t)))
     stats["mutated"] = n_mut
@@ -546,7 +570,9 @@ def gen(seed, tier):
     for _ in range(n_benc):
         t = valid_torrent(rng)
         if rng.random() < 0.5 and is_map(mget(t, "info")):
-            t, _ = mutate(rng, t, stats)
+            t2, _ = mutate(rng, t, stats)
+            if wf_tree(t2):
+                t = t2
             if not is_map(t):
                 t = M({"info": t})
         cases.append("B " + G7.hx(bencoded_case(rng, t, stats)))
